@@ -52,7 +52,7 @@ package keeper
 //@ func (k Keeper) DepositToTunnel
 //@ modifies Store_tunnel, Bank
 //@ requires wfTunnel(Store_tunnel, tunnelID) && wfDeposit(Store_tunnel, tunnelID, depositor)
-//@ ensures err == nil ==> Bank == types.bankA2M(old(Bank), depositor, types.ModuleName, depositAmount)
+//@ ensures err == nil ==> Bank == bankA2M(old(Bank), depositor, types.ModuleName, depositAmount)
 //@ ensures err != nil ==> Store_tunnel == old(Store_tunnel)
 //@ ensures err == nil ==> Store_tunnel == store(store(old(Store_tunnel), types.DepositStoreKey(tunnelID, depositor),
 //@        enc(old(depHas(Store_tunnel, tunnelID, depositor)) ? with(old(depAt(Store_tunnel, tunnelID, depositor)), "Amount", ext("Coins.Add", old(depAt(Store_tunnel, tunnelID, depositor)).Amount, depositAmount))
@@ -66,7 +66,7 @@ package keeper
 //@ modifies Store_tunnel, Bank
 //@ requires wfTunnel(Store_tunnel, tunnelID) && wfDeposit(Store_tunnel, tunnelID, withdrawer)
 //@ ensures err == nil ==> old(depHas(Store_tunnel, tunnelID, withdrawer)) && ext("Coins.IsAllGTE", old(depAt(Store_tunnel, tunnelID, withdrawer)).Amount, amount)
-//@ ensures err == nil ==> Bank == types.bankM2A(old(Bank), types.ModuleName, withdrawer, amount)
+//@ ensures err == nil ==> Bank == bankM2A(old(Bank), types.ModuleName, withdrawer, amount)
 //@ ensures err == nil ==> (let na = ext("Coins.Sub", old(depAt(Store_tunnel, tunnelID, withdrawer)).Amount, amount) in
 //@        (ext("Coins.IsZero", na) ==> !depHas(Store_tunnel, tunnelID, withdrawer))
 //@        && (!ext("Coins.IsZero", na) ==> Store_tunnel[types.DepositStoreKey(tunnelID, withdrawer)] == enc(with(old(depAt(Store_tunnel, tunnelID, withdrawer)), "Amount", na))))
